@@ -107,7 +107,8 @@ CLAIMS = {
    text='DataLine.generate_bytes: byte k of the line is byte k % width of value k // width reduced modulo 2**(8*width) in the configured '
         'order, for every directive (case split proved exhaustive), numbers and expression texts alike; DataLine.factory (string branch) and '
         'EmbeddedString.__init__/factory: one value per character after escape processing, then the configured terminator for .cstr/.asciiz/'
-        'bare strings; FillDataLine / FillUntilDataLine / PredefinedDataLine: n copies of the low byte, inclusive upper bound, nothing when past.',
+        'bare strings; FillDataLine / FillUntilDataLine / PredefinedDataLine: n copies of the low byte, inclusive upper bound, nothing when past; '
+        'the directive factory builds .zero n and .zerountil a as fills whose value is the text "0".',
    note='unicode_escape decoding, ord and the directive regexes are uninterpreted library functions; parse_expression is an assumed contract '
         '(value of the text in a scope); int.to_bytes is the sampled axiom to_bytes_def; EmbeddedString rejects (ValueError) characters above 255.'),
  'C16': dict(tech='contract-based deductive verification (pyvc + z3) over a token model of the printers\' output; BOUNDED stand-in for the listing row helper',
